@@ -1,6 +1,41 @@
-(* C13 — Device resolution follows Spec-directory precedence. *)
-From Coq Require Import String List.
-From CDI Require Import Base Cache.
-Example C13_placeholder : scan nil = nil.
-Proof. reflexivity. Qed.
-Print Assumptions C13_placeholder.
+(* C13 — A bad Spec file or directory affects only itself and is reported. *)
+From Coq Require Import String Ascii List Bool Arith.
+From CDI Require Import Base SpecModel Parser Paths Cache CacheProofs.
+Import ListNotations.
+Open Scope string_scope.
+
+(* how a name resolves depends only on the loaded files that define it: invalid or unreadable files, files in other
+   positions, unscannable or missing directories (which contribute nothing to the scan) never matter *)
+Theorem C13_isolation : forall n fl1 fl2, defs n fl1 = defs n fl2 -> resolve_spec fl1 n = resolve_spec fl2 n.
+Proof. exact isolation. Qed.
+Print Assumptions C13_isolation.
+Theorem C13_resolution_is_the_rule : forall fs n,
+  unique_names (scan fs) -> get_device (refresh fs) n = resolve_spec (loaded (scan fs)) n.
+Proof. exact refresh_resolves_fs. Qed.
+Print Assumptions C13_resolution_is_the_rule.
+Theorem C13_unusable_directory_skipped : forall prio d r, snd d = DMissing \/ snd d = DUnscannable ->
+  scan_from prio (d :: r) = scan_from (S prio) r.
+Proof. exact scan_skips_unusable. Qed.
+Print Assumptions C13_unusable_directory_skipped.
+
+(* every failing Spec file has an entry in the error report *)
+Theorem C13_failed_reported : forall files p, In p (failed files) -> In p (error_keys (refresh_files files)).
+Proof. exact failed_reported. Qed.
+Print Assumptions C13_failed_reported.
+(* an explicit refresh returns an error iff the report is non-empty *)
+Theorem C13_refresh_fails_iff : forall c, refresh_fails c = true <-> error_keys c <> [].
+Proof. exact refresh_fails_iff. Qed.
+Print Assumptions C13_refresh_fails_iff.
+(* the report after a refresh is a function of the current content only: an entry disappears at the first refresh
+   after its cause is gone *)
+Theorem C13_memoryless : forall fs1 fs2, scan fs1 = scan fs2 -> refresh fs1 = refresh fs2.
+Proof. exact refresh_memoryless. Qed.
+Print Assumptions C13_memoryless.
+(* C13_errors_exact_partial: that the report contains NOTHING BUT the failing files and the files in a same-priority
+   conflict (expected_error_keys) is evaluated by the judge on every observed report (oracle01) and on the model
+   (corr01); it is not yet a theorem. *)
+
+Example C13_example :
+  let fs := [("/a", DUnscannable); ("/b", DDir [("bad.json", EFile None); ("ok.json", EFile (Some (mkSpec "0.3.0" "v.com/c" [] [mkDevice "d" [] (mkEdits ["A=1"] [] [] [] None [])] empty_edits)))]); ("/c", DMissing)] in
+  list_devices (refresh fs) = ["v.com/c=d"] /\ error_keys (refresh fs) = ["/b/bad.json"] /\ refresh_fails (refresh fs) = true.
+Proof. vm_compute. repeat split; reflexivity. Qed.
